@@ -77,6 +77,14 @@ def _process_point_estimate(x, primals, point_estimates, insert):
 def sample_likelihood(likelihood: Likelihood, point_estimates, primals, key):
     lh, p_liquid = likelihood.freeze(point_estimates=point_estimates, primals=primals)
     white_sample = random_like(key, lh.left_sqrt_metric_tangents_shape)
+    # A complex standard-normal draw has variance 1/2 in its real and in its
+    # imaginary part. The metric of an energy 0.5*vdot(r, N^-1 r).real is
+    # Re(J^H N^-1 J), i.e. real and imaginary part of the excitation each need
+    # unit variance for the sample to have the metric as covariance.
+    white_sample = tree_map(
+        lambda x: jnp.sqrt(2.0).astype(x.real.dtype) * x if jnp.iscomplexobj(x) else x,
+        white_sample,
+    )
     return lh.left_sqrt_metric(p_liquid, white_sample)
 
 
